@@ -158,7 +158,7 @@ CLAIMED = {
          "paths); the model is compared with the real loop after every script line (callbacks with error class, byte "
          "count and depth, Pending(), Dispatched, interest bits, registry membership, the batch itself)."),
    note=("Trusted: Coq kernel, extraction, harness glue, the kernel environment model (validated by the correspondence run). "
-         "Modelled: File, Conn-as-file and listener objects; packet conn, multicast peer and AsyncAdapter copies of the logic are not (C02, C13 "
+         "Modelled: File, Conn-as-file, listener and packet conn objects; the multicast peer and AsyncAdapter copies of the logic are not (C02, C12, C13 "
          "cover the adapter). The induction of the ledger over whole histories is not proved in Coq."),
    technique="Coq proof of the per-step dispatch lemmas over all batches and handler programs; differential correspondence + extracted exactly-once ledger oracle over histories"),
  "C03": dict(
@@ -191,8 +191,9 @@ CLAIMED = {
          "IO.Dispatched is back where the line found it (invariant over the work-list machine: stack = counted head ++ "
          "callbacks on the stack with at most one uncounted ++ poller work). PARTIAL: regular files are outside the "
          "theorem - at the limit their deferral fails in /repo (known finding C14-regular-file-deferral); the listener's copy "
-         "of the logic is modelled (accept chains), the packet conn and multicast peer copies are not. The implementation is compared with the model on chains "
-         "over sockets, FIFOs and regular files (depth of every callback, Dispatched after every line, results of the "
+         "of the logic (accept chains) and the packet conn's (datagram read/write chains; a deferred completion may run through the "
+         "counting wrapper, which the invariant allows) are modelled, the multicast peer's is not. The implementation is compared with the model on chains "
+         "over sockets, FIFOs, listeners, packet conns and regular files (depth of every callback, Dispatched after every line, results of the "
          "deferred operations)."),
    note="Trusted: Coq kernel, extraction, harness (nesting counter in the driver), kernel environment model. The theorem excludes runs that exhaust the model's fuel; the run reports fuel exhaustion as a mismatch.",
    technique="Coq proof (stack-shape invariant by induction over the work-list machine, lifted to all chain scripts); differential correspondence + ledger oracle"),
